@@ -133,6 +133,13 @@ Section Radia.
     {| ro_amax := amax; ro_effe := effe; ro_dle := dle;
        ro_dgac := if low then phcl else phch; ro_dgao := if low then phol else phoh;
        ro_xarg := xarg; ro_yarg := yarg; ro_ecarg := ecarg; ro_eoarg := eoarg |}.
+  (* crop.go:955-964 — maintenance: MAINTS = sum of WORG[i]*MAIRT[i] in loop order, the organs' shares MANT[i], and the potential
+     maintenance MAINTS*TEFF that assim_of takes as one value; [teff] = math.Pow(2, 0.1*T - 2.5) *)
+  Definition maint_sum (worg mairt : list T) : T := fold_left (fun a p => a + fst p * snd p) (combine worg mairt) zero.
+  Definition mant_of (worg mairt : list T) : list T :=
+    let s := maint_sum worg mairt in map (fun p => fst p * snd p / s) (combine worg mairt).
+  Definition maint_pot_of (worg mairt : list T) (teff : T) : T := maint_sum worg mairt * teff.
+
   (* radia() as a whole (GPHOT, MAINT): the light response feeds the assimilation kernel CropNModel.assim_of *)
   Definition radia_of (x : rd_in) (trrel vswell maint_pot : T) (cold : bool) : T * T :=
     let r := rd_light x in
